@@ -14,6 +14,8 @@
             7 0 goroutine at gate 2         8 0 goroutine at gate 3         9 0 goroutine finished
    ---- memo ----
    Events   [1]       call the memoized function in a new actor      [2 i k]  fn (running on actor i) returns: k=0 value i+1, k=1 error i+1
+            [3 n w]   n new actors call it at the same moment (no schedule point inside memo: they race for real); w = which of
+                      them won the swap, read off the implementation (0 when fn had been entered before)
    Observation per actor:  6 0 inside fn    2 0 blocked on done    3 v / 5 e returned *)
 From Util Require Import Common.Base Common.ListLemmas Once.Model.
 
@@ -252,6 +254,16 @@ Definition mhstep (s : mst) (e : list N) : option (mst * list N) :=
     | Some MInFn, Some o => ret (msettle (mstep (mstep (mstep s (MFnReturn a o)) (MWriteRes a)) (MClose a)))
     | _, _ => None
     end
+  | [3; n; w] =>
+    (* n callers released together; the w-th of them did its swap first (read off the implementation) *)
+    if N.ltb w n && N.leb n 64 then
+      let base := length (mcs s) in
+      let k := N.to_nat n in
+      let s1 := fold_left (fun s _ => mstep s MCall) (seq 0 k) s in
+      let s2 := mstep s1 (MSwap (base + N.to_nat w)) in
+      let s3 := fold_left (fun s a => mstep s (MSwap a)) (seq base k) s2 in
+      ret (msettle s3)
+    else None
   | _ => None
   end%N.
 
